@@ -464,6 +464,14 @@ def explore(ctx, case, bad, drop, sub0=None):
         base = judge(ctx, res, exp, info, "identity", sub, bfeat, afeat, aname, one_bin, zero, full=True)
         if isinstance(res, Exc):
             continue  # reported once; the permuted / rescaled runs of a configuration that cannot run add nothing
+        # ---- the same three table objects handed to do_fix a second time
+        objs = (to_cna(tgt, SAMPLE_COLS, "sample"), to_cna(anti, SAMPLE_COLS, "sample"), to_cna(ref, REF_COLS, "reference"))
+        kw = dict(do_gc="gc" in corr, do_edge="edge" in corr, do_rmask="rmask" in corr, smoothing_window_fraction=frac)
+        ctx.call(FIX.do_fix, *objs, **kw)
+        res_again = ctx.call(FIX.do_fix, *objs, **kw)
+        ctx.state((case, sub, "same-objects-again"), nontrivial=True)
+        ctx.stratum("variant/same-objects-again")
+        judge(ctx, res_again, exp, info, "same-objects-again", dict(sub, variant="second call on the same table objects"), bfeat, afeat, aname, one_bin, zero, full=False)
         # ---- variants
         vspec = VARIANTS[case["variants"]]
         if case.get("variants_on") == "ends" and corr not in CORR_ENDS:
